@@ -17,7 +17,7 @@ def tasks(tier):
 TRUSTED_BASE = TRUSTED_CORE
 ASSUMPTIONS = SCHED_ASSUMPTIONS
 NOT_COVERED = ['termination / deadlock freedom as such (liveness over whole histories) is NOT decided: no function contract expresses it. Decided instead: every internal-error site is unreachable, and the one wait whose condition could be unsatisfiable (own progress beyond until) is excluded by an obligation at the await (this found F16)', 'scenarios in the known finding F6 (K_mixed delays on two paths) die in the closure before any step: recorded, replayed on every run']
-LEVEL_TEXT = "Safety half: every internal-error site on the run path (cannot progress backwards, already progressed, length / None errors, empty heap, incomparable delays in the scheduler functions) is an obligation 'unreachable' under the invariant; the awaited progress in next_step_settled is never beyond until; scheduler.run starts every simulator exactly once. Deadlock freedom / termination (liveness) is NOT decided."
+LEVEL_TEXT = "Safety half: every internal-error site on the run path (cannot progress backwards, already progressed, length / None errors, empty heap, incomparable delays in the scheduler functions) is an obligation 'unreachable' under the invariant; the awaited progress in next_step_settled is never beyond until; scheduler.run starts every simulator exactly once. Deadlock freedom / termination (liveness) is NOT decided. The order and arithmetic of tiered times / delays (C08 contracts) and update_min are part of this check: 'incomparable delays' is one of the internal errors the statement names."
 DESIGN_REF = "DESIGN.md section 8 (C05)"
 LEVEL_NOTE = 'Proved for any number of simulators, any topology, any reply values and every interleaving, under the listed assumptions (evidence: assumptions, coverage.trusted_base). Trusted: pyvc encoder, the rely/guarantee meta-theorem, assumed contracts of asyncio/heapq, the time/delay algebra axioms (C08 provenance), static connection-table facts, z3/cvc5. Known finding F6; fixed through this check: F3 (6862ef0), F13 (d15a998), F16 (520221d).'
 TECHNIQUE = 'contract-based deductive verification (AST->z3 VCs on the real functions, global invariant, rely/guarantee at awaits)'
